@@ -30,6 +30,9 @@ import (
 
 var dlqHandlerNodeStateBroken nodeState = "broken"
 
+// errNackWithoutReason replaces a missing nack reason, see DLQHandlerNode.Nack.
+var errNackWithoutReason = cerrors.New("message was nacked without a reason")
+
 type DLQHandler interface {
 	Open(context.Context) error
 	Write(context.Context, opencdc.Record) error
@@ -141,6 +144,15 @@ func (n *DLQHandlerNode) Nack(msg *Message, nackMetadata NackMetadata) error {
 		// node is not running, this must mean that the DLQHandler node failed
 		// to be opened, the pipeline will soon stop because of that error
 		return cerrors.New("DLQHandlerNode is not running or broken")
+	}
+
+	if nackMetadata.Reason == nil {
+		// A nack can arrive without a reason, e.g. when a processor returns an
+		// error record that has no error set. It is still a rejection: without
+		// a reason dlqRecord would dereference nil, and with the DLQ disabled
+		// the nil reason would be returned as "no error", acking the record to
+		// the source although it was neither delivered nor dead-lettered.
+		nackMetadata.Reason = errNackWithoutReason
 	}
 
 	n.m.Lock()
